@@ -546,6 +546,12 @@ func (*Ufs) Read(req *SrvReq) {
 
 	fid.Lock()
 	defer fid.Unlock()
+	if fid.gone {
+		/* listing a directory from the start reopens it */
+		req.RespondError(Eunknownfid)
+		return
+	}
+
 	tc := req.Tc
 	rc := req.Rc
 	err := fid.stat()
